@@ -24,6 +24,8 @@ def prec(ex):
 
 
 def need_dps(ex, p):
+    if not ex.ctx.opts.get('mpf_checks', True):
+        return
     d = p.ghost.get('mp_dps')
     if d is None:
         raise EngineError('mp.dps ghost not initialised by the contract')
@@ -38,6 +40,8 @@ def need_dps(ex, p):
 
 
 def exact_ob(ex, p, num, what):
+    if not ex.ctx.opts.get('mpf_checks', True):
+        return
     if isinstance(num, int):
         if abs(num) >= 2 ** prec(ex):
             ex.oblige(p, 'mpf-exact', False, what)
